@@ -814,7 +814,7 @@ func ruleServerClose(c *Ctx) {
 				known, wasListening = true, l.Pol
 			}
 		}
-		closes := 0
+		closes, stops := 0, 0
 		lnClosed := false
 		locked := false
 		for _, e := range pr.Events {
@@ -846,6 +846,14 @@ func ruleServerClose(c *Ctx) {
 					if !locked {
 						bad = append(bad, "closes without holding the server's lock on "+where)
 					}
+					// what actually serves is pike's own http.Server with the elton instance as handler: the handler
+					// stops (503 on connections that are still open) only through GracefulClose, or by shutting
+					// that http.Server down; elton's Close / Shutdown act on elton's own, unused, server
+					if nm == "GracefulClose" {
+						stops++
+					} else if e.Callee != nil && e.Callee.Signature.Recv() != nil && strings.HasSuffix(e.Callee.Signature.Recv().Type().String(), "net/http.Server") {
+						stops++
+					}
 				}
 			}
 		}
@@ -865,6 +873,9 @@ func ruleServerClose(c *Ctx) {
 		closing++
 		if !final.IsFalse() {
 			bad = append(bad, "leaves the listening flag "+prettyTerm(final)+" after closing (a later Start would return early and the server would never listen again) on "+where)
+		}
+		if closes > 0 && stops == 0 {
+			bad = append(bad, "the removed server's handler keeps serving: neither GracefulClose on the elton instance nor a shutdown of the http.Server that serves it (clients holding a keep-alive connection are still proxied and cached after the update) on "+where)
 		}
 		if closes == 0 {
 			bad = append(bad, "a listening server is not closed on "+where)
